@@ -452,6 +452,33 @@ def run(tier):
                              f"center_image / Transform(center_options=dict(crop={crop!r}, order={order})) returned instead of raising")
             except Exception:
                 pass
+    # lin-BASEX works on an odd-sized square image: anything else given to linbasex_transform_full — 1-D data of any length (array or
+    # list), a single row as a 1 x n image, non-square, even — is refused, whatever its length happens to be
+    for label, data in [(f"1-D array, {n} points", gauss_full(n, n)[n // 2]) for n in (5, 21, 22)] + \
+                       [(f"1-D list, {n} points", gauss_full(n, n)[n // 2].tolist()) for n in (5, 21)] + \
+                       [("1 x 21 image", gauss_full(21, 21)[10:11]), ("21 x 1 image", gauss_full(21, 21)[:, 10:11])]:
+        ck.count(("linbasex-shape", label), suite="S.extra")
+        try:
+            with contextlib.redirect_stdout(io.StringIO()), warnings.catch_warnings():
+                warnings.simplefilter("ignore")
+                abel.linbasex.linbasex_transform_full(data)
+            ck.violation(dict(site="linbasex", clause="linbasex-shape"), dict(data=label), f"linbasex_transform_full accepted {label}")
+        except Exception:
+            pass
+    # the truncated-SVD strength of rbasex is a fraction of the singular values to drop: anything above 1 is refused, however little above
+    for n in (21, 31, 61):
+        for s_ in (1.0 + 1e-9, 1.001, 1.0133, 1.0333, 1.06, 1.1, 2.0):
+            ck.count(("svd-factor", n, s_), suite="S.extra")
+            try:
+                with contextlib.redirect_stdout(io.StringIO()), warnings.catch_warnings():
+                    warnings.simplefilter("ignore")
+                    abel.rbasex.rbasex_transform(gauss_full(n, n), reg=("SVD", s_))
+                ck.violation(dict(site="rbasex", clause="svd-factor-above-1"), dict(n=n, reg=["SVD", s_]),
+                             f"rbasex_transform({n}x{n}, reg=('SVD', {s_})) returned instead of refusing a truncation factor above 1")
+            except ValueError:
+                pass
+            except Exception as e:
+                ck.violation(dict(site="rbasex", clause="exception"), dict(n=n, reg=["SVD", s_]), f"{type(e).__name__}: {e}")
     ck.cov["exhaustive"] = True
     ck.cov["explanation"] = ("the request-class table is finite and enumerated completely (section A-C); section D adds "
                              "seeded random interactions")
